@@ -223,7 +223,7 @@ def run_runner(cases: list[dict], perms: list, *, extra_env=None) -> tuple[list[
     return res, outs[0].get("tables", {})
 
 
-def gen_cases(ctx) -> tuple[list[dict], list]:
+def gen_cases(ctx):
     entries, rid_of = tr_devdb.read_devdb(core.REPO)
     vendors = tr_devdb.read_vendors(core.REPO)
     rx_of = {seq: rx for seq, rx in entries}
@@ -246,7 +246,10 @@ def gen_cases(ctx) -> tuple[list[dict], list]:
                 chain = None            # missing parent: the database cannot load; any model shows it
                 break
             chain.append(rx_of[seq[:i]])
-        models = synth_models(chain, want) if chain else []
+        try:
+            models = synth_models(chain, want) if chain else []
+        except re.error:                # a regex of the database does not compile: the code cannot load it either
+            models = []
         if not models:
             unsynth.append(".".join(seq))
             models = [" ".join(seq)]
@@ -331,7 +334,16 @@ Definition vendors_eqb (a b : vendors) : bool :=
 """
 
 
-def evaluate(cases, results, tag="cases"):
+def evaluate(cases, results, tables, tag="cases"):
+    """Coq evaluates agree/holds (and the parts of holds) on the implementation outputs.  Every
+    case file also checks that the Gen tables it is evaluated against are the tables the
+    running implementation reported (key "tables": indices of cases in files where not)."""
+    if tables.get("db"):
+        db_t, vs_t = table_terms(tables)
+        defs = TABLE_DEFS + (f"Definition tables_ok : bool := Eval vm_compute in "
+                              f"(db_eqb Src_db {db_t} && vendors_eqb Src_vendors {vs_t}).")
+    else:       # the running code could not even prepare its database: every case reports the exception
+        defs = "Definition tables_ok : bool := true."
     by_model = {}
     for c, r in zip(cases, results):
         by_model.setdefault(c["model"], r)
@@ -341,12 +353,24 @@ def evaluate(cases, results, tag="cases"):
         extra = ref["rb"]["digests"][:1] if ref is not r else []
         terms.append(case_term(r, extra))
     preds = {"agree": "agree_C18", "holds": "holds_C18", "hier": "part_hier", "vendor": "part_vendor",
-             "runtime": "part_runtime"}
-    res = core.run_case_files(ID, TY, IMPORTS, preds, terms, per_file=60, tag=tag)
+             "runtime": "part_runtime", "tables": "fun _ => tables_ok"}
+    res = core.run_case_files(ID, TY, IMPORTS, preds, terms, per_file=60, tag=tag, extra_defs=defs)
     return {k: set(v) for k, v in res.items()}
 
 
 def run(ctx):
+    # coq/Gen is shared by all checks: a concurrent check pointed at another repository copy
+    # can rewrite Gen/Src_devdb.v under our feet.  Every case file validates the tables it
+    # saw against the tables of the implementation run; on mismatch the run is repeated.
+    for attempt in range(3):
+        del ctx.violations[:]
+        ctx.notes[:] = [n for n in ctx.notes if n.startswith("retry")]
+        if _run_once(ctx, last=attempt == 2):
+            return
+        ctx.notes.append(f"retry {attempt + 1}: Gen tables differed from the implementation's tables (concurrent run?)")
+
+
+def _run_once(ctx, last: bool) -> bool:
     rep = core.proof_stage(ctx, THEOREM_FILE)
     if not rep.compiled:
         # the model files contain no proofs: keep them available so that the run below can
@@ -356,16 +380,6 @@ def run(ctx):
             raise core.CheckFailure("C18 model files do not compile:\n" + (p.stdout + p.stderr)[-2000:])
     cases, perms, entries, vendors, unsynth = gen_cases(ctx)
     results, tables = run_runner([{"model": c["model"], "soft": c["soft"]} for c in cases], perms)
-
-    # translator vs. runtime-loaded tables (fail closed: the Gen table is what the theorems are about)
-    db_t, vs_t = table_terms(tables)
-    tab = core.coq_eval(ID, IMPORTS + TABLE_DEFS, [f"db_eqb Src_db {db_t}", f"vendors_eqb Src_vendors {vs_t}"],
-                        tag="tables")
-    if tab != ["true", "true"]:
-        ctx.add_violation(core.Violation(
-            signature="C18/translated-tables-differ-from-runtime-tables",
-            what=f"Gen/Src_devdb.v (from source text) differs from the tables the running code uses: db={tab[0]} vendors={tab[1]}",
-            replay={"correspondence": "tr_devdb.py vs _prepare_db()/registry.vendors", "tables": tables}, no_input=True))
 
     # canonical hardware of every registered vendor (vendor.hardware), as the registry reports it
     known_models = {c["model"] for c in cases}
@@ -377,7 +391,16 @@ def run(ctx):
         cases += extra
         results += r2
 
-    res = evaluate(cases, results)
+    res = evaluate(cases, results, tables)
+    if res["tables"]:
+        if not last:
+            return False
+        # persistent: the translator (source text) and the running code disagree about the tables
+        ctx.add_violation(core.Violation(
+            signature="C18/translated-tables-differ-from-runtime-tables",
+            what="Gen/Src_devdb.v (from source text) differs from the tables the running code uses",
+            replay={"correspondence": "tr_devdb.py vs _prepare_db()/registry.vendors", "tables": tables}, no_input=True))
+        return True
     n = len(cases)
     # the target sequence of each synthesised model must be among the true sequences,
     # otherwise the enumeration is not what it claims (fail closed)
@@ -453,19 +476,20 @@ def run(ctx):
         ctx.notes.append(f"huawei/optixtrans registration-order tie present in current tables (model level): {live[0]}")
     except core.CheckFailure:
         pass
-    ctx.assumptions += [
+    ctx.assumptions[:] = [
         "regex search is abstract in the theorems (Section variable hit); per observed model the hits are taken from "
         "the real compiled patterns",
         "Registry.match is modelled as called by hw_to_vendor (default=None) on the default registry (no entry-point vendors)",
         "runtime part (Mako, importlib, re.compile, equality of two loads) is tested exhaustively over devdb sequences, not proved",
     ]
+    return True
 
 
 def replay(ctx, doc):
     rp = doc["replay"]
     c = rp["case"]
-    results, _ = run_runner([{"model": c["model"], "soft": c["soft"]}], rp.get("perms", ["reverse"]))
-    res = evaluate([c], results, tag="replay")
+    results, tables = run_runner([{"model": c["model"], "soft": c["soft"]}], rp.get("perms", ["reverse"]))
+    res = evaluate([c], results, tables, tag="replay")
     print("impl:", json.dumps(results[0])[:1500])
     print("holds:", 0 not in res["holds"], "agree:", 0 not in res["agree"])
     return 1 if res["holds"] else 0
